@@ -207,6 +207,13 @@ func runHistory(c *rig.Check, sp spec) {
 				}
 			}
 		}
+		if !ex.MainPresent && api > 0 {
+			// (BaseUpTo is 0 without a main file, so api is the global entry index here.) The engine
+			// replaces the file by an atomic rename only, so once data was acknowledged there is no
+			// moment without a file under the swamp's name.
+			c.Count("images_without_storage_file_after_acknowledged_data", 1)
+			ex.AckedWithoutMain = api
+		}
 		if ex.MainPresent && ex.BaseBroken == "" && api > ex.Durable {
 			c.Count("images_where_acknowledged_barrier_exceeds_fsynced_data", 1)
 			ex.Durable = api
@@ -218,7 +225,7 @@ func runHistory(c *rig.Check, sp spec) {
 			}
 			ex.Boundaries = bs
 		}
-		key := fmt.Sprintf("%x/%d/%d/%v", stor.ImageHash(img), ex.Durable, ex.BaseUpTo, ex.MainPresent)
+		key := fmt.Sprintf("%x/%d/%d/%v/%d", stor.ImageHash(img), ex.Durable, ex.BaseUpTo, ex.MainPresent, ex.AckedWithoutMain)
 		if seen[key] {
 			c.Count("images_deduplicated", 1)
 			continue
